@@ -229,7 +229,7 @@ def _sibling_nodes(call, on_path_child):
         yield from walk(ch, [])
 
 
-def immediate_events(sel, trace, within=None):
+def immediate_events(sel, trace, within=None, with_time=False):
     """Expected events for a focused selector, as a list of groups; each group is the
     multiset (list) of {capture: value} dicts produced by one binding of the focus variable.
     `within`: optional predicate on Bind.t restricting *when* the overlay is active (bindings
@@ -268,7 +268,7 @@ def immediate_events(sel, trace, within=None):
                         if v is not None:
                             ev[_capkey(c)] = v.value
             group.append(ev)
-        groups.append(group)
+        groups.append((b.t, group) if with_time else group)
     return groups
 
 
@@ -330,7 +330,7 @@ def all_nodes(sel):
     yield from walk(sel, [])
 
 
-def total_records(sel, trace):
+def total_records(sel, trace, with_time=False):
     """Expected records for a focus-free selector: list (in order of the outermost
     activations' exits) of {capture: [values...]}; activations whose record is incomplete
     are skipped."""
@@ -356,7 +356,7 @@ def total_records(sel, trace):
                 if vals:
                     rec[_capkey(c)] = vals
         if set(rec) == set(all_caps):
-            out.append(rec)
+            out.append((t, [rec]) if with_time else rec)
     return out
 
 
